@@ -74,6 +74,34 @@ def rand_tree(rng, depth, bits):
     return "(%s %s %s)" % (a, op, b)
 
 
+_INNER = None
+
+
+def statically_huge(t):
+    """A power or shift whose exponent / count is itself a power or shift of integer literals above 5000: the specification is
+    silent on these (PowCostOK / ShiftCostOK) and the code needs seconds to minutes for them, so they are not evaluated
+    at all (each would cost one watchdog period). Only this one shape is skipped; anything else is run."""
+    import re
+    global _INNER
+    if _INNER is None:
+        lit = r"(-?(?:0x[0-9A-Fa-f]+|0o[0-7]+|0b[01]+|\d[\d_]*))"
+        _INNER = re.compile(r"(?:\^|<<|>>) \(" + lit + r" (\^|<<) " + lit + r"\)\)$")
+    m = _INNER.search(t)
+    if not m:
+        return False
+
+    def val(x):
+        x = x.replace("_", "")
+        neg = x.startswith("-")
+        x = x.lstrip("-")
+        v = int(x, 16) if x.startswith("0x") else int(x[2:], 8) if x.startswith("0o") else int(x[2:], 2) if x.startswith("0b") else int(x)
+        return -v if neg else v
+    a, op, b = val(m.group(1)), m.group(2), val(m.group(3))
+    if b < 0 or b > 64 or abs(a) < 2:
+        return False
+    return abs(a ** b if op == "^" else a << b) > 5000
+
+
 def decide(run, texts, leg, shards, timeout_ms=4000, min_per_shard=300):
     import time
     t0 = time.time()
@@ -144,7 +172,9 @@ def run(tier, seed):
         t2 = t2 + t2c
     t2u, r2u = evalkit.gen_cases("c01treeu", "tree", lits=lits[:4], binops=BINOPS_CORE, unops=["-", "+"], maxbin=1, maxun=2)
     run.add_tlc(r2u, "MC_ExprGen tree unary")
-    s2, a2 = decide(run, t2 + t2u, "tree", shards)
+    tree = [t for t in t2 + t2u if not statically_huge(t)]
+    run.note("tree_texts_not_evaluated_statically_huge", len(t2) + len(t2u) - len(tree))
+    s2, a2 = decide(run, tree, "tree", shards)
     run.sample({"leg": "tree", "literals": lits, "q": t2[len(t2) // 3]})
 
     # G3: literal spellings
